@@ -625,7 +625,7 @@ func racFunction(p *Program, name string) *racResult {
 		var wg sync.WaitGroup
 		sem := make(chan struct{}, 16)
 		for _, t := range ts {
-			if t.GenErr != "" || t.Hung {
+			if t.GenErr != "" {
 				continue
 			}
 			t := t
@@ -644,6 +644,11 @@ func racFunction(p *Program, name string) *racResult {
 					return
 				}
 				res.Legal++
+				if t.Hung {
+					// the call did not return within the harness' deadline on an admitted input: the termination
+					// claims (decreases clauses) of the function are refuted by this execution
+					res.Refuted = append(res.Refuted, racRefuted{Clause: "terminates (every loop has a decreases clause)", Tags: decTags(fc), Try: t.Try, Seed: t.Seed, Kind: "hang", Pre: t.Pre})
+				}
 				if t.Panic != "" {
 					res.Refuted = append(res.Refuted, racRefuted{Clause: "panics", Tags: fc.PanicTags, Try: t.Try, Seed: t.Seed, Kind: "panic", Panic: t.Panic, Pre: t.Pre})
 				}
@@ -722,4 +727,28 @@ func (e *Enc) mentionsGhost(s string, seen map[string]bool) bool {
 		}
 	}
 	return false
+}
+
+// decTags: the property tags of the termination claims of a function.
+func decTags(fc *FuncC) []string {
+	seen := map[string]bool{}
+	var out []string
+	add := func(ts []string) {
+		for _, t := range ts {
+			if !seen[t] {
+				seen[t] = true
+				out = append(out, t)
+			}
+		}
+	}
+	for _, c := range fc.Dec {
+		add(c.Tags)
+	}
+	for _, l := range fc.Loops {
+		for _, c := range l.Dec {
+			add(c.Tags)
+		}
+	}
+	sort.Strings(out)
+	return out
 }
